@@ -47,18 +47,18 @@ Proof.
   rewrite H2, H1, H3. eexists. split; [reflexivity|]. cbn. auto.
 Qed.
 
-Lemma register_currency_ok rb t st c :
+Lemma register_currency_ok nn rb t st c :
   ~ c_rate c == 0 -> In c t -> cash_ok rb t st ->
-  exists st', register_currency rb st c = POk st' /\ cash_ok rb t st'.
+  exists st', register_currency nn rb st c = POk st' /\ cash_ok rb t st'.
 Proof.
   intros Hr Hin Hok. unfold register_currency.
   destruct (Qeq_bool (c_rate c) 0) eqn:E0.
   { exfalso. apply Hr. apply Qeq_bool_iff. exact E0. }
-  destruct (mem (c_name c) (rs_names st) && mem (c_sym c) (rs_syms st)); [eauto|].
-  set (sym := if mem (c_sym c) (rs_syms st) then c_name c else c_sym c).
+  destruct (mem (nn (c_name c)) (rs_names st) && mem (c_sym c) (rs_syms st)); [eauto|].
+  set (sym := if mem (c_sym c) (rs_syms st) then nn (c_name c) else c_sym c).
   set (name := match assoc sym special_names with
                | Some n => n
-               | None => if mem (c_name c) (rs_names st) then c_sym c else c_name c
+               | None => if mem (nn (c_name c)) (rs_names st) then c_sym c else nn (c_name c)
                end).
   destruct (taken st sym name) eqn:T; [eauto|].
   destruct (taken_false_register st sym name (rb / c_rate c) c T) as (st1 & R1 & C1 & _ & _).
@@ -74,14 +74,14 @@ Proof.
   constructor; [|constructor]. cbn. auto.
 Qed.
 
-Lemma register_loop_ok rb t : forall l st,
+Lemma register_loop_ok nn rb t : forall l st,
   (forall c, In c l -> In c t /\ ~ c_rate c == 0) -> cash_ok rb t st ->
-  exists st', register_loop rb st l = POk st' /\ cash_ok rb t st'.
+  exists st', register_loop nn rb st l = POk st' /\ cash_ok rb t st'.
 Proof.
   induction l as [|c l IH]; intros st Hl Hok; cbn [register_loop].
   - eauto.
   - destruct (Hl c (or_introl eq_refl)) as [Hin Hr].
-    destruct (register_currency_ok rb t st c Hr Hin Hok) as (st1 & R & Hok1).
+    destruct (register_currency_ok nn rb t st c Hr Hin Hok) as (st1 & R & Hok1).
     rewrite R. cbn [pbind]. apply IH; [|exact Hok1].
     intros c' Hc'. apply Hl. right. exact Hc'.
 Qed.
@@ -109,14 +109,14 @@ Proof.
 Qed.
 
 (* R2: with positive rates and the base present, the registration returns normally *)
-Theorem registration_never_raises pn ps t base :
+Theorem registration_never_raises nn pn ps t base :
   rates_positive t -> has_currency base t = true ->
   exists st b, find (fun c => String.eqb (c_sym c) base) t = Some b /\ In b t
-            /\ register_currencies pn ps t base = POk st /\ cash_ok (c_rate b) t st.
+            /\ register_currencies nn pn ps t base = POk st /\ cash_ok (c_rate b) t st.
 Proof.
   intros Hp Hb. destruct (has_currency_find base t Hb) as (b & F & I).
   unfold register_currencies. rewrite F.
-  destruct (register_loop_ok (c_rate b) t t {| rs_names := pn; rs_syms := ps; rs_cash := [] |}
+  destruct (register_loop_ok nn (c_rate b) t t {| rs_names := pn; rs_syms := ps; rs_cash := [] |}
               (rates_positive_nonzero t Hp)) as (st & R & Hok).
   { constructor. }
   exists st, b. auto.
@@ -124,21 +124,21 @@ Qed.
 
 (* only a zero rate can make the loop raise, and then it is ZeroDivisionError; with the asserts
    guarded there is no other exception *)
-Lemma register_currencies_inv pn ps t base st :
-  register_currencies pn ps t base = POk st ->
+Lemma register_currencies_inv nn pn ps t base st :
+  register_currencies nn pn ps t base = POk st ->
   exists b, find (fun c => String.eqb (c_sym c) base) t = Some b /\ In b t
-            /\ register_loop (c_rate b) {| rs_names := pn; rs_syms := ps; rs_cash := [] |} t = POk st.
+            /\ register_loop nn (c_rate b) {| rs_names := pn; rs_syms := ps; rs_cash := [] |} t = POk st.
 Proof.
   unfold register_currencies. destruct (find _ t) as [b|] eqn:F; [|discriminate].
   intros R. exists b. destruct (find_in _ _ _ F). auto.
 Qed.
 
-Lemma registered_cash_ok pn ps t base st :
-  rates_positive t -> register_currencies pn ps t base = POk st ->
+Lemma registered_cash_ok nn pn ps t base st :
+  rates_positive t -> register_currencies nn pn ps t base = POk st ->
   exists b, In b t /\ String.eqb (c_sym b) base = true /\ cash_ok (c_rate b) t st.
 Proof.
-  intros Hp R. destruct (register_currencies_inv _ _ _ _ _ R) as (b & F & I & L).
-  destruct (register_loop_ok (c_rate b) t t {| rs_names := pn; rs_syms := ps; rs_cash := [] |}
+  intros Hp R. destruct (register_currencies_inv _ _ _ _ _ _ R) as (b & F & I & L).
+  destruct (register_loop_ok nn (c_rate b) t t {| rs_names := pn; rs_syms := ps; rs_cash := [] |}
               (rates_positive_nonzero t Hp)) as (st' & R' & Hok); [constructor|].
   rewrite L in R'. injection R' as <-. exists b. destruct (find_in _ _ _ F). auto.
 Qed.
@@ -162,15 +162,15 @@ Lemma conv_algebra rb ra rB x :
 Proof. intros Hb Ha HB. unfold convert_quantity, make_quantity. field. auto. Qed.
 
 Section Registered.
-  Variables (pn ps : list string) (t : list cur) (base : string) (st : regstate).
+  Variables (nn : namenorm_t) (pn ps : list string) (t : list cur) (base : string) (st : regstate).
   Hypothesis Hpos : rates_positive t.
-  Hypothesis Hreg : register_currencies pn ps t base = POk st.
+  Hypothesis Hreg : register_currencies nn pn ps t base = POk st.
 
   Lemma unit_facts : exists b, In b t /\ 0 < c_rate b /\
     forall ident u, lookup_unit st ident = RCash u ->
       In (cu_row u) t /\ 0 < c_rate (cu_row u) /\ cu_mult u = c_rate b / c_rate (cu_row u).
   Proof.
-    destruct (registered_cash_ok pn ps t base st Hpos Hreg) as (b & Ib & _ & Hok).
+    destruct (registered_cash_ok nn pn ps t base st Hpos Hreg) as (b & Ib & _ & Hok).
     unfold rates_positive in Hpos. rewrite Forall_forall in Hpos.
     exists b. split; [exact Ib|]. split; [exact (Hpos b Ib)|].
     intros ident u L. apply lookup_cash_in in L.
@@ -250,19 +250,19 @@ Qed.
 Lemma taken_shape s1 s2 sym name : same_shape s1 s2 -> taken s1 sym name = taken s2 sym name.
 Proof. intros (Hn & Hs & _). unfold taken. rewrite Hn, Hs. reflexivity. Qed.
 
-Lemma register_currency_shape rb1 rb2 s1 s2 c s1' :
-  same_shape s1 s2 -> register_currency rb1 s1 c = POk s1' ->
-  exists s2', register_currency rb2 s2 c = POk s2' /\ same_shape s1' s2'.
+Lemma register_currency_shape nn rb1 rb2 s1 s2 c s1' :
+  same_shape s1 s2 -> register_currency nn rb1 s1 c = POk s1' ->
+  exists s2', register_currency nn rb2 s2 c = POk s2' /\ same_shape s1' s2'.
 Proof.
   intros Hsh. pose proof Hsh as (Hn & Hs & Hc). unfold register_currency.
   destruct (Qeq_bool (c_rate c) 0); [discriminate|].
   rewrite <- Hn, <- Hs.
-  destruct (mem (c_name c) (rs_names s1) && mem (c_sym c) (rs_syms s1)).
+  destruct (mem (nn (c_name c)) (rs_names s1) && mem (c_sym c) (rs_syms s1)).
   { intros [= <-]. eauto. }
-  set (sym := if mem (c_sym c) (rs_syms s1) then c_name c else c_sym c).
+  set (sym := if mem (c_sym c) (rs_syms s1) then nn (c_name c) else c_sym c).
   set (name := match assoc sym special_names with
                | Some n => n
-               | None => if mem (c_name c) (rs_names s1) then c_sym c else c_name c
+               | None => if mem (nn (c_name c)) (rs_names s1) then c_sym c else nn (c_name c)
                end).
   rewrite <- (taken_shape s1 s2 sym name Hsh).
   destruct (taken s1 sym name). { intros [= <-]. eauto. }
@@ -276,14 +276,14 @@ Proof.
   - intros [= <-]. eauto.
 Qed.
 
-Lemma register_loop_shape rb1 rb2 : forall l s1 s2 s1',
-  same_shape s1 s2 -> register_loop rb1 s1 l = POk s1' ->
-  exists s2', register_loop rb2 s2 l = POk s2' /\ same_shape s1' s2'.
+Lemma register_loop_shape nn rb1 rb2 : forall l s1 s2 s1',
+  same_shape s1 s2 -> register_loop nn rb1 s1 l = POk s1' ->
+  exists s2', register_loop nn rb2 s2 l = POk s2' /\ same_shape s1' s2'.
 Proof.
   induction l as [|c l IH]; intros s1 s2 s1' Hsh; cbn [register_loop].
   - intros [= <-]. eauto.
-  - destruct (register_currency rb1 s1 c) as [m1|] eqn:R; [|discriminate]. cbn [pbind].
-    destruct (register_currency_shape rb1 rb2 s1 s2 c m1 Hsh R) as (m2 & R2 & Sh).
+  - destruct (register_currency nn rb1 s1 c) as [m1|] eqn:R; [|discriminate]. cbn [pbind].
+    destruct (register_currency_shape nn rb1 rb2 s1 s2 c m1 Hsh R) as (m2 & R2 & Sh).
     rewrite R2. cbn [pbind]. apply IH. exact Sh.
 Qed.
 
@@ -326,9 +326,9 @@ Proof.
     + reflexivity.
 Qed.
 
-Theorem base_independent pn ps t b1 b2 st1 st2 :
+Theorem base_independent nn pn ps t b1 b2 st1 st2 :
   rates_positive t ->
-  register_currencies pn ps t b1 = POk st1 -> register_currencies pn ps t b2 = POk st2 ->
+  register_currencies nn pn ps t b1 = POk st1 -> register_currencies nn pn ps t b2 = POk st2 ->
   forall x a b,
     match convert st1 x a b, convert st2 x a b with
     | Some r1, Some r2 => r1 == r2
@@ -337,9 +337,9 @@ Theorem base_independent pn ps t b1 b2 st1 st2 :
     end.
 Proof.
   intros Hp R1 R2 x a b.
-  destruct (register_currencies_inv _ _ _ _ _ R1) as (bb1 & _ & _ & L1).
-  destruct (register_currencies_inv _ _ _ _ _ R2) as (bb2 & _ & _ & L2).
-  destruct (register_loop_shape (c_rate bb1) (c_rate bb2) t _ _ st1
+  destruct (register_currencies_inv _ _ _ _ _ _ R1) as (bb1 & _ & _ & L1).
+  destruct (register_currencies_inv _ _ _ _ _ _ R2) as (bb2 & _ & _ & L2).
+  destruct (register_loop_shape nn (c_rate bb1) (c_rate bb2) t _ _ st1
               (conj eq_refl (conj eq_refl eq_refl)) L1) as (st2' & L2' & Sh).
   rewrite L2 in L2'. injection L2' as <-.
   pose proof (lookup_shape st1 st2 a Sh) as Ea. pose proof (lookup_shape st1 st2 b Sh) as Eb.
@@ -348,8 +348,8 @@ Proof.
   destruct (lookup_unit st1 b) as [ub1| |] eqn:Lb1; destruct (lookup_unit st2 b) as [ub2| |] eqn:Lb2;
     try discriminate; try (unfold convert; rewrite La1, La2, Lb1, Lb2; exact I).
   cbn in Ea, Eb. injection Ea as Ea. injection Eb as Eb.
-  destruct (conversion_rate pn ps t b1 st1 Hp R1 x a b ua1 ub1 La1 Lb1) as (_ & _ & r1 & C1 & E1).
-  destruct (conversion_rate pn ps t b2 st2 Hp R2 x a b ua2 ub2 La2 Lb2) as (_ & _ & r2 & C2 & E2).
+  destruct (conversion_rate nn pn ps t b1 st1 Hp R1 x a b ua1 ub1 La1 Lb1) as (_ & _ & r1 & C1 & E1).
+  destruct (conversion_rate nn pn ps t b2 st2 Hp R2 x a b ua2 ub2 La2 Lb2) as (_ & _ & r2 & C2 & E2).
   rewrite C1, C2, E1, E2, Ea, Eb. reflexivity.
 Qed.
 
@@ -393,16 +393,16 @@ Proof.
     + constructor; [|constructor]. cbn. auto.
 Qed.
 
-Lemma register_currency_keys rb st c st' :
-  keys_ok st -> register_currency rb st c = POk st' -> keys_ok st'.
+Lemma register_currency_keys nn rb st c st' :
+  keys_ok st -> register_currency nn rb st c = POk st' -> keys_ok st'.
 Proof.
   intros K. unfold register_currency.
   destruct (Qeq_bool (c_rate c) 0); [discriminate|].
-  destruct (mem (c_name c) (rs_names st) && mem (c_sym c) (rs_syms st)); [intros [= <-]; exact K|].
-  set (sym := if mem (c_sym c) (rs_syms st) then c_name c else c_sym c).
+  destruct (mem (nn (c_name c)) (rs_names st) && mem (c_sym c) (rs_syms st)); [intros [= <-]; exact K|].
+  set (sym := if mem (c_sym c) (rs_syms st) then nn (c_name c) else c_sym c).
   set (name := match assoc sym special_names with
                | Some n => n
-               | None => if mem (c_name c) (rs_names st) then c_sym c else c_name c
+               | None => if mem (nn (c_name c)) (rs_names st) then c_sym c else nn (c_name c)
                end).
   destruct (taken st sym name); [intros [= <-]; exact K|].
   destruct (register_unit st sym name (rb / c_rate c) c) as [st1|] eqn:R1; [|discriminate].
@@ -412,21 +412,21 @@ Proof.
   intros R2. exact (register_unit_keys _ _ _ _ _ _ K1 R2).
 Qed.
 
-Lemma register_loop_keys rb : forall l st st',
-  keys_ok st -> register_loop rb st l = POk st' -> keys_ok st'.
+Lemma register_loop_keys nn rb : forall l st st',
+  keys_ok st -> register_loop nn rb st l = POk st' -> keys_ok st'.
 Proof.
   induction l as [|c l IH]; intros st st' K; cbn [register_loop].
   - intros [= <-]. exact K.
-  - destruct (register_currency rb st c) as [m|] eqn:R; [|discriminate]. cbn [pbind].
-    apply IH. exact (register_currency_keys _ _ _ _ K R).
+  - destruct (register_currency nn rb st c) as [m|] eqn:R; [|discriminate]. cbn [pbind].
+    apply IH. exact (register_currency_keys _ _ _ _ _ K R).
 Qed.
 
 (* NAME_TO_UNIT and SYMBOL_TO_UNIT never get a key twice: the list model of the two dicts is sound *)
-Theorem registry_keys_unique pn ps t base st :
-  NoDup pn -> NoDup ps -> register_currencies pn ps t base = POk st -> keys_ok st.
+Theorem registry_keys_unique nn pn ps t base st :
+  NoDup pn -> NoDup ps -> register_currencies nn pn ps t base = POk st -> keys_ok st.
 Proof.
-  intros Nn Ns R. destruct (register_currencies_inv _ _ _ _ _ R) as (b & _ & _ & L).
-  refine (register_loop_keys _ _ _ _ _ L). unfold keys_ok. cbn. auto.
+  intros Nn Ns R. destruct (register_currencies_inv _ _ _ _ _ _ R) as (b & _ & _ & L).
+  refine (register_loop_keys _ _ _ _ _ _ L). unfold keys_ok. cbn. auto.
 Qed.
 
 (* ------------------------------------------------------------------ export / parse *)
